@@ -214,9 +214,13 @@ func enumerate(p *pool) {
 				if !startHistory(table) {
 					continue
 				}
+				// the last lookup before the mutation resolves the id of the slot that is about to change, and the first
+				// lookups after it ask for that id again: a lookup must depend on the segment only, not on what was asked before
+				step("search "+idTok(caseVariant(fam[pos])), "")
 				switch variant {
 				case 0:
 					step(fmt.Sprintf("remove %d", pos), "")
+					searchSome([]ID{fam[pos], fam[pos]})
 					searchSome(fam[:L])
 					if !over() {
 						step(fmt.Sprintf("add %d %s", pos, idTok(fam[5])), "")
@@ -228,15 +232,110 @@ func enumerate(p *pool) {
 				case 3:
 					step(fmt.Sprintf("set %d %s", pos+1, idTok(ID{})), "")
 				}
-				searchSome(append(append([]ID{}, fam[:6]...), other[0], other[1]))
+				searchSome(append(append([]ID{fam[pos]}, fam[:6]...), other[0], other[1]))
 				if !over() {
 					step("dosearch "+idTok(ID{}), "")
+				}
+				if !over() {
+					step("lookupall", "")
 				}
 				if !over() {
 					step(fileLine(false, liveTable()), "file")
 					step("load", "")
 				}
 				searchSome(fam[:L])
+			}
+		}
+	}
+}
+
+func pfx(peer bool) string {
+	if peer {
+		return "peer "
+	}
+	return ""
+}
+
+// staleLookups: lookup of X (a hit) -> one change of the index that concerns X's slot -> lookups of X again with no other
+// lookup in between, for every kind of change, with the lookups and the change made by this process or by the peer
+// process attached to the same segment.  A lookup is a function of the segment: whatever a process remembers from
+// earlier lookups must not show.  Smallest first (3-node chain; the slot at the head, in the middle, at the tail).
+func staleLookups(p *pool) {
+	fam, other := p.fams[0], p.fams[1]
+	combos := [][2]bool{{false, false}, {false, true}, {true, false}}
+	slots := []int{1}
+	if run.Thorough() {
+		combos = append(combos, [2]bool{true, true})
+		slots = []int{0, 1, 2}
+	}
+	for mut := 0; mut < 9; mut++ {
+		for ci, c := range combos {
+			for _, k := range slots {
+				if (mut == 6 || mut == 7) && c[1] {
+					continue // a cold reload is done by the process that owns the segment
+				}
+				table := make([]ID, MAX)
+				copy(table, fam[:3])
+				table[5] = other[0]
+				if !startHistory(table) {
+					continue
+				}
+				X := fam[k]
+				S, M := pfx(c[0]), pfx(c[1])
+				step(S+"search "+idTok(caseVariant(X)), "")
+				switch mut {
+				case 0: // taken out of the index; the bytes stay in Userid[k]
+					step(fmt.Sprintf("%sremove %d", M, k), "")
+				case 1: // account cleared
+					step(fmt.Sprintf("%sset %d %s", M, k+1, idTok(ID{})), "")
+				case 2: // renamed to another bucket
+					step(fmt.Sprintf("%sset %d %s", M, k+1, idTok(other[1])), "")
+				case 3: // renamed inside the chain
+					step(fmt.Sprintf("%sset %d %s", M, k+1, idTok(fam[4])), "")
+				case 4: // the id moves to another slot
+					step(fmt.Sprintf("%sset %d %s", M, k+1, idTok(ID{})), "")
+					step(fmt.Sprintf("%sset %d %s", M, 8, idTok(caseVariant(X))), "")
+				case 5: // the slot is re-used for another id
+					step(fmt.Sprintf("%sremove %d", M, k), "")
+					step(fmt.Sprintf("%sadd %d %s", M, k, idTok(fam[4])), "")
+				case 6: // cold reload of a table without the id
+					t := liveTable()
+					t[k] = ID{}
+					step("reset", "reset")
+					step(fileLine(false, t), "file")
+					step("load", "")
+				case 7: // cold reload of a table that has the id in another slot
+					t := liveTable()
+					t[k], t[9] = ID{}, X
+					step("reset", "reset")
+					step(fileLine(false, t), "file")
+					step("load", "")
+				case 8: // removed here, registered again in another slot (the old slot still carries the bytes)
+					step(fmt.Sprintf("%sremove %d", M, k), "")
+					step(fmt.Sprintf("%sset %d %s", M, 11, idTok(X)), "")
+				}
+				for _, q := range []ID{caseVariant(X), X} {
+					if !over() {
+						step(S+"search "+idTok(q), "")
+					}
+				}
+				if !over() {
+					step(S+"dosearch "+idTok(X), "")
+				}
+				if !over() { // the other process has its own memory of earlier lookups
+					step(pfx(!c[0])+"search "+idTok(caseVariant(X)), "")
+				}
+				if mut == 0 && !over() { // as in a re-registration: back under another slot, removed again
+					step(fmt.Sprintf("%sset %d %s", M, 13, idTok(caseVariant(X))), "")
+					step(S+"search "+idTok(X), "")
+					if !over() {
+						step(fmt.Sprintf("%sremove %d", M, 12), "")
+						step(S+"search "+idTok(caseVariant(X)), "")
+					}
+				}
+				if !over() && ci == 0 {
+					step("lookupall", "")
+				}
 			}
 		}
 	}
@@ -349,9 +448,41 @@ func history(p *pool, kind int, nOps int) {
 		return
 	}
 	for n := 0; n < nOps && !over(); n++ {
+		if n > 0 && r.Intn(6) == 0 {
+			step(pfx(r.Intn(8) == 0)+"lookupall", "")
+			if over() {
+				break
+			}
+		}
 		used, _ := liveSlots()
 		c := r.Intn(100)
 		switch {
+		case c < 8 && len(used) > 0: // lookup X, change X's slot, lookup X again (here or in the peer)
+			k := used[r.Intn(len(used))]
+			X := cache.Shm.Shm.Userid[k]
+			S, M := pfx(r.Intn(4) == 0), pfx(r.Intn(4) == 0)
+			step(S+"search "+idTok(caseVariant(X)), "")
+			if over() {
+				break
+			}
+			switch r.Intn(4) {
+			case 0:
+				step(fmt.Sprintf("%sremove %d", M, k), "")
+			case 1:
+				step(fmt.Sprintf("%sset %d %s", M, k+1, idTok(ID{})), "")
+			case 2:
+				if id, ok := p.freshID(p.familyOf(&X)); ok {
+					step(fmt.Sprintf("%sset %d %s", M, k+1, idTok(id)), "")
+				}
+			default:
+				step(fmt.Sprintf("%sremove %d", M, k), "")
+				if !over() {
+					step(fmt.Sprintf("%sset %d %s", M, 1+r.Intn(MAX), idTok(caseVariant(X))), "")
+				}
+			}
+			for j := 1 + r.Intn(2); j > 0 && !over(); j-- {
+				step(S+"search "+idTok(caseVariant(X)), "")
+			}
 		case c < 30: // rename / register / clear one slot
 			k := r.Intn(MAX)
 			var from []ID
@@ -505,7 +636,8 @@ func malformed(p *pool, n int) {
 				safeLoad()
 			case 9:
 				step([]string{"frobnicate", "add x y", "set 1", "search zz", "file 2", "poke mid 1 1", "remove", "getuserid one",
-					"search " + strings.Repeat("61", 12), "add 1 " + strings.Repeat("6", 27)}[r.Intn(10)], "")
+					"search " + strings.Repeat("61", 12), "add 1 " + strings.Repeat("6", 27), "peer", "peer load", "peer reset", "peer add x y",
+					"lookupall now", "peer peer lookupall"}[r.Intn(16)], "")
 			case 10:
 				step(fmt.Sprintf("getuserid %d", []int{0, -1, MAX + 1, -99999}[r.Intn(4)]), "")
 			case 11:
@@ -590,7 +722,8 @@ func generate() {
 	run.Extra["colliding_families"] = len(p.fams)
 	run.Extra["empty_bucket_family"] = len(p.emptyFam)
 	enumerate(p)
-	nHist, nMal := 170, 25
+	staleLookups(p)
+	nHist, nMal := 130, 25
 	if run.Thorough() {
 		nHist, nMal = 4000, 400
 	}
